@@ -215,6 +215,10 @@ func (c *checker) guard(path string, i int, v any, f func()) {
 	if c.only != nil && (c.only.Path != path || c.only.Idx != i) {
 		return
 	}
+	if ux.Stop() {
+		c.res.Capped = true // the batch's time is up: the rest is left unexplored and the run says so
+		return
+	}
 	// Unserialize on the constructor-built instance and its judgement run under the sorted iteration order and under
 	// every single deviating order of every map the operation ranges over (map-order seam; schema/ is built with the
 	// maporder rewrite for this check): presence rules, defaults and dispatch must come out the same whichever
@@ -400,9 +404,10 @@ func runChain(spec *ukit.Spec, tier string, res *ux.Result) {
 
 func main() {
 	ux.Main(ux.Harness{
-		Property:   "C03",
-		Level:      "exploration",
-		Exhaustive: true,
+		Property:    "C03",
+		Level:       "exploration",
+		Exhaustive:  true,
+		TaskTimeout: 600 * time.Second,
 		Batches: func(tier string) []any {
 			n := len(objects(tier))
 			var out []any
